@@ -278,6 +278,15 @@ def compile_repeat(run, ctx):
         end = t.here
         if "visit(%s," % CHILD not in body[3]:
             v("body-child", "the repeated fragment must be the repeat's child, found %s" % body[3])
+        # context of the body: a loop iterates its body, so iteration k must stay backtrackable for iteration
+        # k+1: the body is compiled in the incoming context widened by the repeat's own hardness (or `true`)
+        mctx = re.search(r"visit\(%s,(.+)\)$" % re.escape(CHILD), body[3])
+        ctxarg = mctx.group(1) if mctx else "?"
+        bi_ = [i for i, ev in enumerate(p.events) if ev.kind == "call" and ev.a == body[3]]
+        widened = any(ev.kind == "let" and ev.a == ctxarg and (H.pat_match("(%s | %s.hard)" % (HARD, INFO), ev.b) or H.pat_match("(%s.hard | %s)" % (INFO, HARD), ev.b) or H.pat_match("(%s || %s.hard)" % (HARD, INFO), ev.b))
+                      for ev in p.events[:bi_[0] if bi_ else 0])
+        ctx_ok_loop = widened or ctxarg == "true" or ctxarg in ("(%s | %s.hard)" % (HARD, INFO), "(%s.hard | %s)" % (INFO, HARD))
+        body_ctx = (ctxarg, ctx_ok_loop)
         eq = lambda a, b: pf.proves("Eq", a, b)
         ne0 = pf.proves("Ne", MIN, 0) or pf.proves("Gt", MIN, 0)
         if names == ["Split"]:
@@ -351,7 +360,9 @@ def compile_repeat(run, ctx):
                 v(kind + "/shape", "counted repeat must be Save0(counter); Repeat*; body; Jmp(Repeat*)")
         else:
             v("unknown-template/" + ",".join(names), "unrecognised instruction sequence %s" % names)
-        # context passed to the child: incoming for `e?`, widened by info.hard otherwise (CTX rule checks the forms)
+        is_optional = (names == ["Split"] and insns[0][3] == bstart.plus(-1) and insns[0][3] == Pos())
+        if not is_optional and not body_ctx[1]:
+            v("loop-context", "the body of a loop is compiled with context `%s`: it must be the incoming context widened by the repeat's own hardness (hard | info.hard) -- otherwise a hard repeat reached in an easy context (inside an atomic group, a look-around, a group or an alternation branch) delegates the variable-length tail of its body once per iteration and cannot backtrack between iterations" % body_ctx[0])
     need = {"optional": 2, "star": 2, "plus": 2, "epsilon": 2, "counted": 2}
     for k, c in need.items():
         if kinds.get(k, 0) < c:
